@@ -14,6 +14,11 @@ import random
 import sys
 
 from harness import core, coqemit as E, fieldgen as G
+from harness import c08enums as X
+
+# the enum-class vocabulary of C08 (as harness/props/c08.py registers it): mixed-in primitive types, by-value twins
+G.ENUMS.update(X.EXTRA)
+G.BY_VALUE.update(X.BY_VALUE)
 
 HEADER = """From Coq Require Import ZArith NArith String List Bool. Import ListNotations.
 From TP Require Import Check.C08srcchk.
@@ -50,7 +55,7 @@ def reify_obj(o):
 
 def realise(f):
     ns = {}
-    exec(G.IMPORTS + "the_field = " + G.field_src(f), ns)      # noqa: S102 - generated source of a declaration
+    exec(G.IMPORTS + X.IMPORT + "the_field = " + G.field_src(f), ns)      # noqa: S102 - generated source of a declaration
     return ns["the_field"]
 
 
@@ -66,17 +71,37 @@ def ptable():
     return E.lst(["(%s, %s)" % (E.nlit(i), E.pstr(t)) for i, t in enumerate(G.PATTERNS)])
 
 
+def einfo_text():
+    return E.lst(["(%s, {| eo_mixin := %s; eo_by_value := %s |})" % (E.pstr(n), X.mixin_of(c), E.blit(n in G.BY_VALUE))
+                  for n, c in sorted(G.ENUMS.items())])
+
+
 def case_text(f, obj, obs):
     out = "(Some %s)" % E.pval(obs[1]) if obs[0] == "ok" else "None"
-    return "{| vc_pats := %s; vc_field := %s; vc_obj := %s; vc_out := %s |}" % (
-        ptable(), G.emit_field(f), E.pval(reify_obj(obj)), out)
+    return "{| vc_pats := pats0; vc_einfo := einfo0; vc_field := %s; vc_obj := %s; vc_out := %s |}" % (
+        G.emit_field(f), E.pval(reify_obj(obj)), out)
+
+
+def sprinkle(rnd, f):
+    """enum members among the literals of some Enum[...] declarations (the generator's pool has none)"""
+    if f.get("t") == "enumlit" and rnd.random() < 0.4:
+        cname = rnd.choice(sorted(G.ENUMS))
+        member = rnd.choice(list(G.ENUMS[cname]))
+        f["values"] = f["values"] + [E.reify(member)]
+    for k in ("item", "kf", "vf"):
+        if isinstance(f.get(k), dict):
+            sprinkle(rnd, f[k])
+    for k in ("items", "fs"):
+        for g in f.get(k) or []:
+            sprinkle(rnd, g)
+    return f
 
 
 def check(rep, rnd, n=300, shard=150):
     """-> dict stream -> (cases, mismatching case indexes); records obligations on `rep` when given"""
     fields = []
     while len(fields) < n:
-        f = G.gen_field(rnd, depth=0, classes=(), max_depth=rnd.choice([1, 2, 2, 3]))
+        f = sprinkle(rnd, G.gen_field(rnd, depth=0, classes=(), max_depth=rnd.choice([1, 2, 2, 3])))
         fields.append(f)
     cases, stats = [], {"ok": 0, "raise": 0}
     for f in fields:
@@ -86,7 +111,9 @@ def check(rep, rnd, n=300, shard=150):
         cases.append(case_text(f, obj, obs))
     shards = []
     for i in range(0, len(cases), shard):
-        body = "Definition cases : list vcase := %s.\n" % E.lst(["\n " + c for c in cases[i:i + shard]])
+        body = "Definition pats0 : vptable := %s.\nDefinition einfo0 : list (pystr * eopts) := %s.\n" % (
+            ptable(), einfo_text())
+        body += "Definition cases : list vcase := %s.\n" % E.lst(["\n " + c for c in cases[i:i + shard]])
         for fn in ("view_mismatch", "src_mismatch", "model_mismatch"):
             body += "Eval vm_compute in (indices_where %s cases 0).\n" % fn
         shards.append(body)
